@@ -38,9 +38,8 @@ def fold_repeat_bodies(text):
                     closed = True
                     break
             m += 1
-        if not closed:                         # unbalanced: fold the directive's own line only
-            nl = text.find("\n", j)
-            m = len(text) - 1 if nl < 0 else nl - 1
+        if not closed:                         # no closing brace: the block runs to the end of the file (the parser takes it so)
+            m = len(text) - 1
         out.append(text[j:m + 1].replace("\n", " ").replace(":", " ").replace("=", " "))
         i = m + 1
     return "".join(out)
